@@ -227,6 +227,7 @@ func c19(env *core.Env) {
 	queries := append([]string{}, hosts...)
 	queries = append(queries, "unknown.example", "h1.example/not-a-url")
 	var firstLoadErr *bool
+	firstLoadErrText := ""
 	var firstResults map[string]c19Result
 	for round := 0; round < 8; round++ {
 		cf, err := ociauth.LoadWithEnv(runner, []string{"DOCKER_CONFIG=" + dir})
@@ -238,6 +239,14 @@ func c19(env *core.Env) {
 			}
 		} else if *firstLoadErr != loadErr {
 			env.Failf("C19/load/order-dependent", "decoding the same document succeeded under one map iteration order and failed under another (%v)", err)
+		}
+		if loadErr {
+			// which entry a rejected document is rejected for is part of the result too
+			if firstLoadErrText == "" {
+				firstLoadErrText = err.Error()
+			} else if err.Error() != firstLoadErrText {
+				env.Failf("C19/load/error-order-dependent", "decoding the same document fails with %q under one map iteration order and with %q under another (config %s)", firstLoadErrText, err.Error(), data)
+			}
 		}
 		if loadErr {
 			continue
